@@ -16,3 +16,21 @@ claim(
     "All strings of <=4 (quick) / <=5 (thorough) tokens over a 34-token alphabet are compiled with parse() (and select() on a deterministic slice), plus token-level mutations of valid selectors through parse/select/probing; every outcome must be a Selector, SyntaxError with offset, SelectorError, or the documented TypeError; termination is decided by a step counter on the parser's comparator. Semantically bad templates must be refused at probe creation/activation. Exhaustive within the stated length bound only.",
     "CodeNotFoundError is accepted from select()/probing() for unresolvable absolute references (unit-tested behaviour); ValueError('Unsupported focus pattern') accepted from probing(); environment callables are total.",
 )
+claim(
+    "C03",
+    "trace monitor: events of the real Immediate/probing machinery vs an independent embedding-enumerating reference matcher over the generated program's own call-tree log",
+    "Bounded-exhaustive (all call trees up to 4/6 activations over 3 functions x systematic chain selectors) plus seeded random (trees up to 12/16 activations, selectors with siblings, depth <= 4) exploration; every focus binding's event multiset and the cross-binding order are compared with a reference written from the statement. Held-on-observed.",
+    "Reference matcher in vlib/calltree.py; unique values make histories unambiguous; sibling captures read inclusively of the triggering binding.",
+)
+claim(
+    "C05",
+    "history monitor with shadow state: random + bounded-exhaustive activation histories, invariants on instrumentation counters / installed code / handler collection / global_probes evaluated after every step, streams compared with reference matcher",
+    "Random histories (<=12/20 ops over 7 overlapping probe specs incl. total, overridable-declining, multi-selector, raw overlay blocks, refused activations, exceptions, non-LIFO global deactivation) and all histories up to length 4/5 over a 3-probe universe; after every step the exactly-once streams and the 'no trace' state invariants are asserted against a shadow model. Held-on-observed.",
+    "Expected streams rely on the C03/C07 reference matchers; probes are (de)activated at top level of one thread/context.",
+)
+claim(
+    "C07",
+    "trace monitor: records of Total probes (plain and forced) timestamped against the program's log vs a reference record builder",
+    "Seeded random exploration of (call trees incl. recursion, several outermost calls, raising activations, never-bound captures) x (focus-free selectors with siblings; focused selectors forced to total); records, their order, and the moment of delivery (right at the outermost call's exit) are compared with a reference from the statement. Held-on-observed.",
+    "Per-embedding multiplicity for nested matches; forced-total records compared as a multiset per outermost call.",
+)
